@@ -124,4 +124,12 @@ REGISTRY = {
                                      "a violation is raised only when the reference token stream also equals html5ever's own token stream; otherwise the input is counted as inconclusive",
                                      "inputs are ASCII without '&', CR and NUL (html5ever decodes / normalises them, lol-html is raw by design); later duplicate attributes are dropped on all sides"],
     },
+    "C18": {
+        "level": "model_checking",
+        "traces": [{"job": "c18", "module": "TraceRel", "cfg": "TraceRel.cfg", "timeout": 1200, "timeout_thorough": 10800},
+                   {"job": "c18s", "module": "TraceThreads", "cfg": "TraceThreads.cfg", "timeout": 1200, "timeout_thorough": 10800}],
+        "mc": [{"module": "MC_Threads", "cfg": "MC_Threads.cfg", "cfg_thorough": "MC_Threads_thorough.cfg", "replay_to": True, "workers": 4, "timeout": 300, "timeout_thorough": 1800}],
+        "assumptions": ["thread schedules of the last-error clause are forced step by step (one operation at a time, hand-over through channels); the free-running pool relies on the OS scheduler plus yields and spins",
+                        "'identical' = results, sink bytes and the whole event list (TraceRel, clause C18)"],
+    },
 }
